@@ -112,7 +112,7 @@ def gen_item(rng: Random, fields: list[str] | None = None, allow_keyword_mod: bo
         v = pick(rng, ["-enc foo", " -x /y", "a-b -c", "/q -w"])
     elif kind == "placeholder":
         ph = pick(rng, PLACEHOLDERS)
-        v = pick(rng, ["%{}%", "pre%{}%", "%{}%post", "a%{}%b\\*"]).format(ph)
+        v = pick(rng, ["%{}%", "pre%{}%", "%{}%post", "a%{}%b\\*", "\\%{}\\%x", "%{}%\\%lit\\%"]).format(ph)
     elif kind == "field":
         v = pick(rng, fields)
     elif kind == "bool":
